@@ -1,0 +1,14 @@
+//go:build verif
+
+package storage
+
+// Contracts for the gowp verifier (/verif). Comment-only file.
+
+// $added: ghost counter of the triples handed to AddTriples calls that reported success.
+//@ ghost var $added Int
+
+//@ func (this Graph) AddTriples
+//@   nobody
+//@   modifies $added
+//@   ghostdef result == nil ==> $added == old($added) + len(ts)
+//@   ghostdef result != nil ==> $added == old($added)
